@@ -8399,6 +8399,20 @@ func (e *ExpressionEmitter) emitImageLoadRZSW(
 	// We record the block ID where we branch to merge (false path)
 	entryBlockID := e.currentBlock.LabelID
 
+	// The first bounds test (level, sample or coordinates, whichever comes
+	// first) heads the selection; the later ones branch out to its merge block.
+	merged := false
+	selectionMerge := func() {
+		if merged {
+			return
+		}
+		merged = true
+		ib := e.newIB()
+		ib.AddWord(mergeBlockID)
+		ib.AddWord(0) // SelectionControl::None
+		e.backend.builder.funcAppend(ib.Build(OpSelectionMerge))
+	}
+
 	// Check level bounds
 	if levelID != nil {
 		// OpImageQueryLevels
@@ -8421,10 +8435,7 @@ func (e *ExpressionEmitter) emitImageLoadRZSW(
 		// SelectionMerge + BranchConditional
 		trueBlockID := e.backend.builder.AllocID()
 
-		ib = e.newIB()
-		ib.AddWord(mergeBlockID)
-		ib.AddWord(0) // SelectionControl::None
-		e.backend.builder.funcAppend(ib.Build(OpSelectionMerge))
+		selectionMerge()
 
 		// False path goes to merge with null
 		phiEntries = append(phiEntries, phiEntry{nullID, e.currentBlock.LabelID})
@@ -8466,7 +8477,8 @@ func (e *ExpressionEmitter) emitImageLoadRZSW(
 
 		trueBlockID := e.backend.builder.AllocID()
 
-		// BranchConditional (no SelectionMerge for nested checks)
+		// BranchConditional (SelectionMerge only when this is the first check)
+		selectionMerge()
 		e.consumeBlock(Instruction{
 			Opcode: OpBranchConditional,
 			Words:  []uint32{sampleCondID, trueBlockID, mergeBlockID},
@@ -8529,6 +8541,7 @@ func (e *ExpressionEmitter) emitImageLoadRZSW(
 		accessBlockID := e.backend.builder.AllocID()
 
 		// BranchConditional
+		selectionMerge()
 		e.consumeBlock(Instruction{
 			Opcode: OpBranchConditional,
 			Words:  []uint32{coordCondID, accessBlockID, mergeBlockID},
